@@ -138,11 +138,13 @@ Reset(i) ==
     /\ Log([op |-> "reset", i |-> i], NoObs)
     /\ UNCHANGED blobs
 
+\* j absent: `let j = i.clone()`;  j present (same kind, any configuration and history): `j.clone_from(&i)`.
+\* Either way j becomes an exact copy of i, configuration included.
 Clone(i, j) ==
-    /\ Present(i) /\ ~Present(j)
-    /\ CfgOf[i] = CfgOf[j]
+    /\ Present(i) /\ i # j
+    /\ inst[j].kind \in {"none", inst[i].kind}
     /\ inst' = [inst EXCEPT ![j] = inst[i]]
-    /\ Log([op |-> "clone", i |-> i, j |-> j], NoObs)
+    /\ Log([op |-> IF Present(j) THEN "cloneinto" ELSE "clone", i |-> i, j |-> j], NoObs)
     /\ UNCHANGED blobs
 
 Save(i, s) ==
@@ -176,7 +178,7 @@ Do(o) ==
     \/ o.op = "b" /\ Feed(o.i, [ty |-> "b", o |-> o.o, h |-> o.h, l |-> o.l, c |-> o.c, v |-> o.v])
     \/ o.op = "tok" /\ Tok(o.i, o.x)
     \/ o.op = "reset" /\ Reset(o.i)
-    \/ o.op = "clone" /\ Clone(o.i, o.j)
+    \/ o.op \in {"clone", "cloneinto"} /\ Clone(o.i, o.j)
     \/ o.op = "save" /\ Save(o.i, o.s)
     \/ o.op = "restore" /\ Restore(o.s, o.j)
     \/ o.op = "new" /\ New(o.i)
@@ -214,7 +216,8 @@ FreeDepthOf(b) == rest # <<>> \/ pos <= b
 \* restores a blob) would otherwise merge with the continuation from the initial state -- the transcribed reset
 \* re-creates the initial state exactly (ResetToInit) -- and the real instance would never be replayed through
 \* "arbitrary history, reset, continuation".
-view == <<pos * (IF UseScript THEN 1 ELSE 0), rest, IF rest = <<>> \/ UseScript THEN <<>> ELSE ops, [i \in Ids |-> IF Present(i) THEN [inst[i] EXCEPT !.t = 0] ELSE inst[i]],
+view == <<pos * (IF UseScript THEN 1 ELSE 0), IF UseScript THEN <<>> ELSE rest,      \* (a script's position is `pos`: hashing its tail would cost O(length) per step)
+          IF rest = <<>> \/ UseScript THEN <<>> ELSE ops, [i \in Ids |-> IF Present(i) THEN [inst[i] EXCEPT !.t = 0] ELSE inst[i]],
           [s \in Slots |-> IF blobs[s].kind # "none" THEN [blobs[s] EXCEPT !.t = 0] ELSE blobs[s]]>>
 
 \* one replayable behaviour per explored transition
